@@ -698,6 +698,36 @@ pub fn c04_faulted(ctx: &Ctx, out: &mut RunOut) -> Result<(), Violation> {
         simcore::disk::apply_fault(ctx, &mut c, None, &[]);
         ctx.count("entry-content-decode");
         guarded("Content::decode", || on_small_stack(ctx, || lopdf::content::Content::decode(&c).map(|_| ())))?.ok();
+        // a content stream with an inline image: the image dictionary's numbers decide how many bytes follow
+        {
+            let (w, hgt) = (1 + ctx.draw(W, 12, "ii-w") as usize, 1 + ctx.draw(W, 6, "ii-h") as usize);
+            let (cs, ncol) = [("/G", 1usize), ("/RGB", 3), ("/CMYK", 4), ("/DeviceGray", 1)][ctx.draw(W, 4, "ii-cs") as usize];
+            let bpc = [1usize, 2, 4, 8][ctx.draw(W, 4, "ii-bpc") as usize];
+            let stride = (w * ncol * bpc + 7) / 8;
+            let mut c = pagegen::encode_ops(&pagegen::gen_ops(ctx, 3), 0, 1);
+            let head = format!("\nBI /W {w} /H {hgt} /BPC {bpc} /CS {cs} ID ");
+            let at = c.len();
+            c.extend_from_slice(head.as_bytes());
+            c.extend((0..stride * hgt).map(|i| (i * 37 % 251) as u8));
+            c.extend_from_slice(b" EI\nQ\n");
+            let hot = vec![(at, at + head.len()); 4];
+            for _ in 0..1 + ctx.draw(F, 2, "ii-faults") {
+                simcore::disk::apply_fault(ctx, &mut c, None, &hot);
+            }
+            ctx.count("entry-content-decode-inline-image");
+            guarded("Content::decode (inline image)", || on_small_stack(ctx, || lopdf::content::Content::decode(&c).map(|_| ())))?.ok();
+        }
+        // an ASCII85 stream whose groups sit at the top of the 32-bit range
+        {
+            let mut data: Vec<u8> = (0..4 * (1 + ctx.draw(W, 6, "a85-groups") as usize)).map(|_| if ctx.chance(W, 3, 4, "a85-ff") { 0xFF } else { ctx.draw(W, 256, "a85-byte") as u8 }).collect();
+            data.truncate(data.len() - ctx.draw(W, 4, "a85-tail") as usize);
+            let mut body = ascii85(&data);
+            let hot = vec![(0, body.len())];
+            simcore::disk::apply_fault(ctx, &mut body, None, &hot);
+            ctx.count("entry-ascii85");
+            let st = lopdf::Stream::new(lopdf::dictionary! { "Filter" => "ASCII85Decode" }, body);
+            guarded("Stream::decompressed_content (ASCII85)", || on_small_stack(ctx, || st.decompressed_content().map(|_| ())))?.ok();
+        }
         let mut cm = gen_cmap(ctx);
         let hot = cmap_hot(&cm);
         simcore::disk::apply_fault(ctx, &mut cm, None, &hot);
